@@ -267,7 +267,9 @@ int main(int argc, char** argv) {
   long n = atol(getarg(argc, argv, "--steps", "2000").c_str());
   Rng r(seed, 41000 + (uint64_t)shard); R = &r;
   for (auto& s : catalogue()) if (!s.fixture) SOLS.push_back(s.name);
-  for (auto& p : POOL) for (auto& c : p) c = (long double)(double)r.uni(0.1L, 1.9L);
+  // pool of 32 points: 16 in (0.1,1.9)^4, 8 in (-2,2)^4, 8 with coordinates spread over three decades 10^U(-3,0) (thin layers next to a wall / an axis)
+  // and one coordinate exactly 0 in two of them; all double-representable so both precisions see the same arguments
+  { int k = 0; for (auto& p : POOL) { for (auto& c : p) c = (long double)(double)(k < 16 ? r.uni(0.1L, 1.9L) : k < 24 ? r.uni(-2.0L, 2.0L) : powl(10.0L, r.uni(-3.0L, 0.0L))); if (k >= 30) p[r.below(4)] = 0; k++; } }
   g_allow_wild = false;
   Model<double> m; Ops<double> o(m); CSide c(m, o);
   for (auto& w : c.W) if (!w.fn) hviol(PROP, "wrapper-missing:" + w.cname, "the library no longer defines " + w.cname);
